@@ -35,7 +35,7 @@ def check_full_buffer_writes(R, F, cfg, rec):
     ex = R.executor(F)
     ln = sym_int("len(*self.buffer)", F.pointer_bits, False)
     nn = sym_int("const N", F.pointer_bits, False)
-    ex.conserved_coeffs = [nn, -nn]
+    ex.conserved_coeffs = [nn, -nn, Poly.const(-1)]
     tag = "%s|send_pixels" % cfg
     try:
         res = R.run_entry(ex, rec, assume=[ln - nn, nn - 1, Poly.const((1 << 32) - 1) - ln])
@@ -156,6 +156,8 @@ def check_row_merge(R, F, cfg, cap):
                 R.undecided("C20", "%s|row-length" % tag, "length of the flushed row not readable from %r" % (row,))
                 continue
             feasible = f2.assume(ge0(Poly.const(cap - 1) - f2.simplify(ln), f2), 1)
+        if feasible and (C.known_atoms_violated(f2) or C.contradictory(f2)):
+            feasible = False
         R.ob("C20b-flush-only-when-not-mergeable", "%s|flush%d" % (tag, nflush), not feasible,
              "next() hands on a row although the pixel just pulled is its right-hand neighbour on the same line and the row is not "
              "full: adjacent pixels are not merged into one burst", sample={"path": [("%r" % p_)[:120] for p_, _ in f.decisions()][:6]})
@@ -192,6 +194,25 @@ def run(R):
                     if not has_pix:
                         continue    # error prefix or empty intersection
                     cnt = {k: kinds.count(k) for k in ("CASET", "RASET", "RAMWR")}
+                    if cnt != {"CASET": 1, "RASET": 1, "RAMWR": 1} and not in_loop:
+                        # the trace of a merged state lists the events of all its alternatives: count per linear path that
+                        # is feasible under the outcome's facts (the worst one is reported)
+                        try:
+                            worst = None
+                            for cond_, items in TR.linearize(o.state.trace, limit=1024):
+                                if o.state.facts.simplify(cond_).const_value() == 0:
+                                    continue
+                                ks = [D.wsym(TR.classify(it)) for it in items if isinstance(it, E.Ev) and it.kind == "call" and TR.classify(it).cls == "WCMD"]
+                                if not any(isinstance(it, E.Ev) and it.kind == "call" and TR.classify(it).cls in ("PIX", "REP") for it in items):
+                                    continue
+                                c_ = {k: ks.count(k) for k in ("CASET", "RASET", "RAMWR")}
+                                if worst is None or c_ != {"CASET": 1, "RASET": 1, "RAMWR": 1}:
+                                    worst = c_
+                            if worst is None:
+                                continue        # no feasible path of this outcome sends pixels (an error prefix)
+                            cnt = worst
+                        except E.Undecided:
+                            pass
                     R.ob("C20a-one-window-per-fill", "%s|%s" % (otag, nm), cnt == {"CASET": 1, "RASET": 1, "RAMWR": 1} and not in_loop,
                          "%s uses %s address-window set-ups (in a loop: %s); it must be exactly one" % (nm, cnt, bool(in_loop)),
                          sample={"entry": nm, "orientation": [q * 90, m], "window_commands": cnt})
